@@ -33,6 +33,11 @@ CLAIMED = {
             "Trusted: the harness' rule evaluator and key-position table (from the Redis command reference), Redis double. Snapshot-key filtering is exercised by the C03 harness, not here.",
             "deterministic simulation (end-to-end target log) + independent rule evaluator; input/configuration search only",
             "DESIGN.md §3 C10"),
+    "C17": ("fault_enumeration",
+            "Each maintenance operation (id move after failover through RedisOutput.SetRunId, checkpoint rename through UpdateCheckpoint, stale-checkpoint GC) is run on a drawn initial bookkeeping state, its target requests are counted, and it is then crashed after EVERY prefix of those requests for several rotations of the DB iteration order; after each prefix the tool's own start path must find a position not smaller than, and in the same DB as, the one held before; GC must spare the newest entry of a live id. Initial states are sampled; crash prefixes are enumerated per state.",
+            "Trusted: Redis double (hash/SELECT/INFO keyspace semantics), the documented checkpoint layout used by the 'before' reader. The cmd-level GC driver loop is transcribed in the harness; bisync namespace migration is not covered by this check yet.",
+            "deterministic simulation + crash-point enumeration over each operation's request sequence x DB-order rotations",
+            "DESIGN.md §3 C17"),
 }
 
 NOT_APPLICABLE = {
